@@ -4,6 +4,7 @@ package checks
 
 import (
 	"fmt"
+	"github.com/massnetorg/mass-core/consensus"
 	"sort"
 	"strings"
 	"testing"
@@ -99,16 +100,22 @@ func propC07(t *rapid.T) {
 	if rapid.IntRange(0, 2).Draw(t, "neighbourWallet") == 0 {
 		nW = 2
 	}
-	w := newWorld(t, nW, 20, nil)
+	// mostly the default gap limit; sometimes a small one, so that used addresses exactly gap-limit
+	// apart (the furthest the live wallet can get) occur within a handful of addresses
+	gap := uint32(rapid.SampledFrom([]int{20, 20, 20, 2, 3, 4}).Draw(t, "gapLimit"))
+	w := newWorld(t, nW, gap, nil)
 	defer w.close()
 	w.allowNullData = true
+	if gap != 20 {
+		w.flag("small-gap-limit")
+	}
 	m := w.wallets[0]
 	var v *mwallet
 	var envB *sim.Env
 	if nW == 2 {
 		v = w.wallets[1]
 		var err error
-		envB, err = sim.NewEnv(w.node, 20, nil)
+		envB, err = sim.NewEnv(w.node, gap, nil)
 		if err != nil {
 			t.Fatalf("HARNESS: %v", err)
 		}
@@ -116,7 +123,7 @@ func propC07(t *rapid.T) {
 		if err := envB.StartStepped(); err != nil {
 			t.Fatalf("HARNESS: %v", err)
 		}
-		if _, err := envB.W.ImportWalletWithMnemonic(&keystore.WalletParams{Mnemonic: v.keys.Mnemonic, PrivatePassphrase: []byte(v.keys.Pass), Remarks: "v", AddressGapLimit: 20}); err != nil {
+		if _, err := envB.W.ImportWalletWithMnemonic(&keystore.WalletParams{Mnemonic: v.keys.Mnemonic, PrivatePassphrase: []byte(v.keys.Pass), Remarks: "v", AddressGapLimit: gap}); err != nil {
 			t.Fatalf("HARNESS: import of the neighbour wallet: %v", err)
 		}
 		for n := 0; n < 100; n++ {
@@ -134,22 +141,50 @@ func propC07(t *rapid.T) {
 	long := rapid.IntRange(0, 7).Draw(t, "longChain") == 0 || (ev.Thorough() && rapid.IntRange(0, 4).Draw(t, "longChainT") == 0)
 	n1 := rapid.IntRange(6, 28).Draw(t, "phase1")
 	for i := 0; i < n1; i++ {
-		switch rapid.SampledFrom([]string{"newAddress", "mine", "mine", "mine", "reorg", "deliver", "deliver"}).Draw(t, "act1") {
+		acts1 := []string{"newAddress", "mine", "mine", "mine", "reorg", "deliver", "deliver"}
+		if gap != 20 {
+			acts1 = append(acts1, "newAddress", "payLast", "payLast")
+		}
+		switch rapid.SampledFrom(acts1).Draw(t, "act1") {
+		case "payLast":
+			// a payment to the most recently issued address: with a small gap limit this produces used
+			// addresses that are the full gap limit apart
+			ia := m.issued[len(m.issued)-1]
+			if c := w.strangerCoin(t, 200000000); c != nil && w.quiescent(t) {
+				script := sim.StdScript(ia.Hash)
+				if ia.Class == massutil.AddressClassWitnessStaking {
+					script = sim.StakingScript(ia.Hash, consensus.MinFrozenPeriod)
+				}
+				tx := wire.NewMsgTx()
+				tx.AddTxIn(sim.Spend(c.Op.Hash, c.Op.Index, wire.MaxTxInSequenceNum))
+				tx.AddTxOut(wire.NewTxOut(100000000, script))
+				tx.AddTxOut(wire.NewTxOut(c.Value-100001000, sim.StdScript(w.strangers[1])))
+				w.mineFixed(t, nil, []*wire.MsgTx{tx}, true)
+				w.deliverAll(t)
+				w.flag("payment-to-the-newest-address")
+			} else {
+				w.actMine(t, true)
+			}
 		case "newAddress":
-			if len(m.issued) < 6 {
+			if len(m.issued) < 6 || (gap != 20 && len(m.issued) < 10) {
 				class := uint16(massutil.AddressClassWitnessV0)
 				if rapid.IntRange(0, 3).Draw(t, "stk") == 0 {
 					class = massutil.AddressClassWitnessStaking
 				}
-				if _, err := w.issueAddress(t, m, class); err != nil {
+				if _, err := w.issueAddress(t, m, class); err != nil && !(gap != 20 && err == keystore.ErrGapLimit) {
 					t.Fatalf("NewAddress: %v", err)
 				}
 			}
 		case "mine":
 			w.actMine(t, true)
 		case "reorg":
-			if w.node.Height() >= 1 {
+			// (with a small gap limit a reorganisation before the restore could take away the payment that
+			// justified issuing a later, funded address: such an address is beyond any gap-limit scan by
+			// construction, which is no defect of the restore - not generated)
+			if w.node.Height() >= 1 && gap == 20 {
 				w.actReorg(t)
+			} else {
+				w.actMine(t, true)
 			}
 		case "deliver":
 			if len(w.env.Queue) > 0 {
@@ -174,7 +209,7 @@ func propC07(t *rapid.T) {
 	// phase 2: B imports
 	if envB == nil {
 		var err error
-		envB, err = sim.NewEnv(w.node, 20, nil)
+		envB, err = sim.NewEnv(w.node, gap, nil)
 		if err != nil {
 			t.Fatalf("HARNESS: %v", err)
 		}
@@ -195,7 +230,10 @@ func propC07(t *rapid.T) {
 	how := rapid.SampledFrom([]string{"mnemonic", "mnemonic", "keystore"}).Draw(t, "importHow")
 	if how == "mnemonic" {
 		hint := uint32(rapid.IntRange(0, len(m.issued)).Draw(t, "hint"))
-		ws, err := envB.W.ImportWalletWithMnemonic(&keystore.WalletParams{Mnemonic: m.keys.Mnemonic, PrivatePassphrase: []byte(m.keys.Pass), Remarks: "b", ExternalIndex: hint, AddressGapLimit: 20})
+		if gap != 20 && rapid.Bool().Draw(t, "noHint") {
+			hint = 0 // a bare mnemonic restore: everything has to be found by the gap-limit scan
+		}
+		ws, err := envB.W.ImportWalletWithMnemonic(&keystore.WalletParams{Mnemonic: m.keys.Mnemonic, PrivatePassphrase: []byte(m.keys.Pass), Remarks: "b", ExternalIndex: hint, AddressGapLimit: gap})
 		if err != nil {
 			t.Fatalf("ImportWalletWithMnemonic: %v", err)
 		}
@@ -216,7 +254,7 @@ func propC07(t *rapid.T) {
 		}
 		w.logf("B imports keystore")
 	}
-	wB := &World{node: w.node, env: envB, flags: w.flags, gap: 20, tipAnnounced: true, pending: map[wire.Hash]*wire.MsgTx{}, everSeen: map[wire.Hash]*wire.MsgTx{}}
+	wB := &World{node: w.node, env: envB, flags: w.flags, gap: gap, tipAnnounced: true, pending: map[wire.Hash]*wire.MsgTx{}, everSeen: map[wire.Hash]*wire.MsgTx{}}
 	importing := func() bool {
 		ready, _, exists := wB.walletStatus(t, m.id)
 		if !exists {
